@@ -23,6 +23,38 @@ pub mod entity;
 /// Error reporting for ECS operation failure.
 pub mod error;
 
+/// Verification hooks (only with `--cfg gecs_verif`).
+#[cfg(gecs_verif)]
+#[doc(hidden)]
+pub mod verif {
+    /// Structural dump of one archetype storage.
+    #[derive(Clone, Debug, PartialEq, Eq)]
+    pub struct Dump {
+        pub version: u32,
+        pub len: usize,
+        pub capacity: usize,
+        pub free_head: u32,
+        /// Raw (index bits, generation) of all `capacity` slots.
+        pub slots: Vec<(u32, u32)>,
+        /// Raw (key, generation) of the `len` dense entity handles.
+        pub entities: Vec<(u32, u32)>,
+        /// Lengths of the (created, destroyed) event vectors (0 without `events`).
+        pub events: (usize, usize),
+    }
+
+    #[inline(always)]
+    pub(crate) fn slot_index_raw(index: crate::archetype::slot::SlotIndex) -> u32 {
+        // SlotIndex is ordered by its raw value; recover it through its public predicates.
+        if index.is_free_end() {
+            u32::MAX
+        } else if index.is_free() {
+            Into::<u32>::into(index.index_free().unwrap()) | (1 << 31)
+        } else {
+            Into::<u32>::into(index.index_data().unwrap())
+        }
+    }
+}
+
 /// Traits for working with ECS types as generics.
 pub mod traits;
 
